@@ -128,7 +128,7 @@ def build():
     # ---- mixed memory: several fragments, explicit offsets, overlaps, gaps, backward offsets,
     #      zero-length registers, len != size_of(ty) ----
     mix_a = Map("MixA", 0, "LE", [
-        Reg("A0", "u32", 4, "RW", init=("0xdeadbeef", word(0xDEADBEEF, 32))),
+        Reg("A0", "u32", 4, "RW", init=("0xdead_beef_u32", word(0xDEADBEEF, 32))),
         Reg("A1", "u16", 2, "RO"),
         Reg("Jump", "u64", 8, "RW", offset=0x20),
         Reg("AfterJump", "u8", 1, "WO"),                 # running offset continues after the explicit one
@@ -162,7 +162,7 @@ def build():
 
     # ---- a map far away from 0 (memory spans 0 .. base+size, the gap is NA) ----
     maps.append(Map("Far", 0x1000, "LE", [
-        Reg("F0", "u64", 8, "RW", init=("0x1122334455667788", word(0x1122334455667788, 64))),
+        Reg("F0", "u64", 8, "RW", init=("0x1122_3344_5566_7788_u64", word(0x1122334455667788, 64))),
         Reg("F1", "str", 64, "RW", init=('"far away"', "s:" + hexs(b"far away"))),
         Reg("F2", "u8", 1, "RO", offset=0x100),
     ]))
@@ -253,8 +253,10 @@ def main():
             print("c20_maps.rs is stale: run tools/gen_c20_maps.py")
             return 1
         return 0
-    with open(OUT, "w") as f:
-        f.write(text)
+    cur = open(OUT).read() if os.path.exists(OUT) else ""
+    if cur != text:  # keep the mtime when nothing changed (no needless cargo rebuild)
+        with open(OUT, "w") as f:
+            f.write(text)
     n = sum(len(m.regs) for m in maps)
     print("wrote %s: %d maps, %d registers, %d memories" % (os.path.normpath(OUT), len(maps), n, len(mems)))
     return 0
